@@ -134,21 +134,6 @@ Proof.
   rewrite (IH (q + 1)); [|lia | rewrite <- Er; exact H1 | exact Hr]. rewrite (db_step ts q t Hq Hn), Ht. reflexivity.
 Qed.
 
-Section Rend.
-Variable W : spaces_fn.
-(* what is known of the indent a run was written with: a predicate of the depth state before the run, the indent, and the
-   tokens that follow the run (True for the C09 theorems; the reference depth for the idempotence theorem) *)
-Variable Pind : dstate -> Z -> list token -> Prop.
-
-Inductive rend : dstate -> Z -> list token -> list Z -> Prop :=
-| rend_nil st q : rend st q [] []
-| rend_code st q t l out : tis_trivia t = false -> rend (tok_depth_after st t) (q + 1) l out -> rend st q (t :: l) (tcode t ++ out)
-| rend_run st q ind T l out : T <> [] -> forallb tis_trivia T = true ->
-    match l with [] => True | u :: _ => tis_trivia u = false end -> Pind st ind l ->
-    rend st (q + zlen T) l out ->
-    rend st q (T ++ l) (W q ind (match l with [] => true | _ => false end) T ++ out)
-| rend_empty st q ind e l out : rend st q l out -> rend st q l (W q ind e [] ++ out).
-
 Lemma sig_codes_trivia run : forall l i, forallb tis_trivia run = true -> sig_codes (run ++ l) i = sig_codes l (i + zlen run).
 Proof.
   induction run as [|t r IH]; intros l i H; [cbn [app]; rewrite zlen_nil; f_equal; lia|].
@@ -172,6 +157,21 @@ Qed.
 
 Lemma skipn_firstn_split {A} (l : list A) q k : skipn q l = firstn k (skipn q l) ++ skipn (q + k) l.
 Proof. rewrite <- (firstn_skipn k (skipn q l)) at 1. f_equal. apply skipn_plus. Qed.
+
+Section Rend.
+Variable W : spaces_fn.
+(* what is known of the indent a run was written with: a predicate of the depth state before the run, the indent, and the
+   tokens that follow the run (True for the C09 theorems; the reference depth for the idempotence theorem) *)
+Variable Pind : dstate -> Z -> list token -> Prop.
+
+Inductive rend : dstate -> Z -> list token -> list Z -> Prop :=
+| rend_nil st q : rend st q [] []
+| rend_code st q t l out : tis_trivia t = false -> rend (tok_depth_after st t) (q + 1) l out -> rend st q (t :: l) (tcode t ++ out)
+| rend_run st q ind T l out : T <> [] -> forallb tis_trivia T = true ->
+    match l with [] => True | u :: _ => tis_trivia u = false end -> Pind st ind l ->
+    rend st (q + zlen T) l out ->
+    rend st q (T ++ l) (W q ind (match l with [] => true | _ => false end) T ++ out)
+| rend_empty st q ind e l out : rend st q l out -> rend st q l (W q ind e [] ++ out).
 
 Definition ind_known (ts : list token) (c : chunk) : Prop :=
   match c with
